@@ -47,7 +47,7 @@ def run():
                         ("Apa_Positivity", "InvBadCfl"), ("Apa_Positivity", "InvBadHll"),
                         ("Apa_Speeds", "InvBadEigen"), ("Apa_Mesh", "InvBadRatioAlways"),
                         ("Apa_Recon", "InvBadSeam"), ("Apa_Recon", "InvBadStencil"), ("Apa_Recon", "InvBadThird"),
-                        ("Apa_Recon", "InvBadWidthGrad"), ("Apa_Recon", "InvBadMirrorK"), ("Apa_Recon", "InvBadSeamUniform")):
+                        ("Apa_Recon", "InvBadWidthGrad"), ("Apa_Recon", "InvBadMirrorK"), ("Apa_Recon", "InvBadSeamUniform"), ("Apa_RH", "InvBadMomentum")):
         v, _w = core.apalache(module, inv, timeout=300)
         say(v != "NoError", "Apalache: %s of %s is %s" % (inv, module, "refuted" if v == "Error" else v))
     for init, inv, what in (("InitBad", "InvNoneMissed", "one snapshot per iteration (D01) loses a requested time"),
